@@ -71,7 +71,7 @@ Lemma pgt_pf_of s ras root mask pf tgt :
 Proof. intro H. unfold pgt_pf. now rewrite H. Qed.
 
 (** the scans find the run *)
-Lemma hl_finds s ras root mask pf tgt first0 base top_ end_ e :
+Lemma hl_finds s ras root mask pf tgt first0 base top_ end_ off e :
   pgt_meth s = {| m_kind := KPgt ras root mask pf; m_target := tgt |} ->
   pte_format pf = PTE_X86_64 -> x86_64_form (fieldsz pf) ->
   (forall a x, rd img s a x <> RdErr OK) ->
@@ -80,12 +80,12 @@ Lemma hl_finds s ras root mask pf tgt first0 base top_ end_ e :
   base mod 2^12 = 0 -> (top_ + 1) mod 2^12 = 0 ->
   (forall a, base <= a -> a <= top_ -> x86_mapped (rd img s) tgt mask pf ras root a) ->
   (forall a, top_ < a -> a <= end_ -> x86_unmapped (rd img s) tgt mask pf ras root a) ->
-  s_highest_linear img hl_fuel s base end_ (wsub 0 base) = (OK, e) ->
-  e = top_ /\ exists p, T s base = (OK, p) /\ wsub p base = wsub 0 base.
+  s_highest_linear img hl_fuel s base end_ off = (OK, e) ->
+  e = top_ /\ exists p, T s base = (OK, p) /\ wsub p base = off.
 Proof.
   intros Hm Hfmt Hform Hrd H0 H1 H2 H3 Hspan Hb Ht Hmp Hup Hhl.
   unfold s_highest_linear in Hhl. rewrite (pgt_pf_of _ _ _ _ _ _ Hm), Hm in Hhl.
-  apply (x86_64_highest_linear_single_run (rd img s) tgt mask pf ras root end_ (T s) (wsub 0 base)
+  apply (x86_64_highest_linear_single_run (rd img s) tgt mask pf ras root end_ (T s) off
            hl_fuel lvl_fuel base top_ e); try assumption.
   assert (Hs1 : base / 2^(total (fieldsz pf)) = first0 / 2^(total (fieldsz pf)))
     by (apply (div_sandwich _ first0 base end_); lia).
@@ -188,3 +188,98 @@ Proof.
 Qed.
 
 End Region.
+
+(** * The kernel text region
+
+    [linux_ktext_extents] looks for the text in [LINUX_KTEXT_START,
+    LINUX_KTEXT_END] with the offset the kernel-text method already has.  In
+    general the region it answers is NOT a subset of what the page tables map
+    linearly: [highest_linear] tests the first address of every mapped run only,
+    and the region spans the unmapped gaps between runs.  On a canonical image
+    (one run [base, top_] of whole pages in the window, below the no-KASLR end)
+    it is exactly the run; and if the run is mapped with the method's offset,
+    the method agrees with the page tables on all of it. *)
+Section KText.
+Variable img : image.
+Variable hl_fuel : nat.
+Notation T := (kv2kphys img).
+
+Lemma lin_of_linearoff d a p :
+  a < 2^64 -> p < 2^64 -> wsub p a = Z.to_N (d mod 2^64)%Z -> lin d a = p.
+Proof.
+  intros Ha Hp H. apply (f_equal Z.of_N) in H.
+  assert (Hw : Z.of_N (wsub p a) = ((Z.of_N p - Z.of_N a) mod 2^64)%Z).
+  { unfold wsub, w. rewrite W_pow. rewrite (N.mod_small a) by lia.
+    rewrite N2Z.inj_mod, N2Z.inj_sub, N2Z.inj_add by lia.
+    change (Z.of_N (2^64)) with (2^64)%Z.
+    replace (Z.of_N p + 2^64 - Z.of_N a)%Z with (Z.of_N p - Z.of_N a + 1 * 2^64)%Z by lia.
+    now rewrite Z.mod_add by lia. }
+  rewrite Hw, Z2N.id in H by (apply Z.mod_pos_bound; lia).
+  unfold lin. rewrite <- Zplus_mod_idemp_r, <- H, Zplus_mod_idemp_r.
+  replace (Z.of_N a + (Z.of_N p - Z.of_N a))%Z with (Z.of_N p) by lia.
+  rewrite Z.mod_small by (change (2^64)%Z with (Z.of_N (2^64)); lia).
+  apply N2Z.id.
+Qed.
+
+Theorem ktext_extents_finds s ras root mask pf tgt base top_ low high :
+  pgt_meth s = {| m_kind := KPgt ras root mask pf; m_target := tgt |} ->
+  pte_format pf = PTE_X86_64 -> x86_64_form (fieldsz pf) ->
+  (forall a x, rd img s a x <> RdErr OK) ->
+  LINUX_KTEXT_START <= base -> base <= top_ -> top_ < LINUX_KTEXT_END_NOKASLR ->
+  base mod 2^12 = 0 -> (top_ + 1) mod 2^12 = 0 ->
+  (forall a, LINUX_KTEXT_START <= a -> a < base -> x86_unmapped (rd img s) tgt mask pf ras root a) ->
+  (forall a, base <= a -> a <= top_ -> x86_mapped (rd img s) tgt mask pf ras root a) ->
+  (forall a, top_ < a -> a <= LINUX_KTEXT_END_NOKASLR -> x86_unmapped (rd img s) tgt mask pf ras root a) ->
+  linux_ktext_extents img hl_fuel s = (OK, (low, high)) ->
+  low = base /\ high = top_ /\
+  exists p, T s base = (OK, p) /\
+            wsub p base = Z.to_N (lin_off (get_meth s METH_KTEXT) mod 2^64)%Z.
+Proof.
+  intros Hm Hfmt Hform Hrd H0 H1 H2 Hb Ht Hbelow Hrun Habove H.
+  pose proof (pgt_pf_of s _ _ _ _ _ Hm) as Hpf.
+  unfold linux_ktext_extents in H.
+  destruct (s_lowest_mapped img s LINUX_KTEXT_START LINUX_KTEXT_END) as [[st0 s0] f] eqn:Elm.
+  destruct st0; try (injection H as Hst _ _; discriminate Hst).
+  assert (f = base).
+  { unfold s_lowest_mapped in Elm. rewrite Hpf, Hm in Elm.
+    apply (x86_64_lowest_mapped_finds (rd img s) tgt mask pf ras root LINUX_KTEXT_END lvl_fuel
+             LINUX_KTEXT_START base s0 f); try assumption; try reflexivity. apply Hrun; lia. }
+  subst f.
+  destruct (N.leb_spec base LINUX_KTEXT_END_NOKASLR) as [_|Hgt]; [|lia].
+  destruct (s_highest_linear img hl_fuel s base LINUX_KTEXT_END_NOKASLR _) as [st1 h] eqn:Ehl.
+  destruct st1; try (injection H as Hst _ _; discriminate Hst).
+  assert (Hspan : LINUX_KTEXT_START / 2^(total (fieldsz pf)) = LINUX_KTEXT_END_NOKASLR / 2^(total (fieldsz pf)))
+    by (destruct Hform as [-> | ->]; reflexivity).
+  destruct (hl_finds img hl_fuel s ras root mask pf tgt LINUX_KTEXT_START base top_ LINUX_KTEXT_END_NOKASLR _ h
+              Hm Hfmt Hform Hrd H0 H1 H2 ltac:(reflexivity) Hspan Hb Ht Hrun Habove Ehl) as (-> & Hp).
+  destruct (N.leb_spec LINUX_KTEXT_END_NOKASLR top_) as [Hc|_]; [lia|].
+  injection H as <- <-. auto.
+Qed.
+
+(** ... and where the run is mapped with one offset, the kernel-text method
+    agrees with the page tables on all of it *)
+Theorem ktext_extents_agree s ras root mask pf tgt base top_ low high :
+  pgt_meth s = {| m_kind := KPgt ras root mask pf; m_target := tgt |} ->
+  pte_format pf = PTE_X86_64 -> x86_64_form (fieldsz pf) ->
+  (forall a x, rd img s a x <> RdErr OK) ->
+  LINUX_KTEXT_START <= base -> base <= top_ -> top_ < LINUX_KTEXT_END_NOKASLR ->
+  base mod 2^12 = 0 -> (top_ + 1) mod 2^12 = 0 ->
+  (forall a, LINUX_KTEXT_START <= a -> a < base -> x86_unmapped (rd img s) tgt mask pf ras root a) ->
+  (forall a, base <= a -> a <= top_ -> x86_mapped (rd img s) tgt mask pf ras root a) ->
+  (forall a, top_ < a -> a <= LINUX_KTEXT_END_NOKASLR -> x86_unmapped (rd img s) tgt mask pf ras root a) ->
+  (exists off, forall a p, base <= a -> a <= top_ -> T s a = (OK, p) -> wsub p a = off) ->
+  linux_ktext_extents img hl_fuel s = (OK, (low, high)) ->
+  low = base /\ high = top_ /\
+  forall a p, base <= a -> a <= top_ -> p < 2^64 -> T s a = (OK, p) ->
+              lin (lin_off (get_meth s METH_KTEXT)) a = p.
+Proof.
+  intros Hm Hfmt Hform Hrd H0 H1 H2 Hb Ht Hbelow Hrun Habove [off Hlin] H.
+  destruct (ktext_extents_finds s ras root mask pf tgt base top_ low high Hm Hfmt Hform Hrd H0 H1 H2 Hb Ht
+              Hbelow Hrun Habove H) as (-> & -> & p0 & Hp0 & Hoff0).
+  split; [reflexivity|]. split; [reflexivity|].
+  intros a p Ha1 Ha2 Hp HT. apply lin_of_linearoff; try assumption.
+  - assert (LINUX_KTEXT_END_NOKASLR < 2^64) by reflexivity. lia.
+  - rewrite (Hlin a p Ha1 Ha2 HT), <- (Hlin base p0 ltac:(lia) H1 Hp0). exact Hoff0.
+Qed.
+
+End KText.
